@@ -39,10 +39,10 @@ m = {
     },
     "engines": [{"name": "lean4-proof+correspondence", "path": "/verif/check",
                  "serves_properties": [c["property_id"] for c in checks],
-                 "kind_free_text": "Lean 4 theorems about executable models (lake build + #print axioms audit), translators regenerating Lean tables from /repo, and a differential correspondence check (C++ harness built from /repo vs compiled Lean driver)"}],
+                 "kind_free_text": "Lean 4 theorems about executable models (lake build + #print axioms audit); translators that on every run regenerate from /repo's current source (a) the modulus tables and the static-store footprint and (b) Lean definitions of the C++ code itself from clang's typed AST (tools/gen_*_ast.py: functors, NTT blocks and loops, table initialisation, SIMD kernels, CRT, samplers, PRNG glue, Gaussian sampling step, copy-on-write handles, operator bool, serialisation), proved equal to the hand-written models; and a differential correspondence check (C++ harness built from /repo vs compiled Lean driver) for everything else"}],
     "checks": checks,
     "not_applicable": na,
-    "notes": "All checks go through ./check <id>; see DESIGN.md. Evidence level is `proof`; the correspondence counts are reported next to obligations/discharged.",
+    "notes": "All checks go through ./check <id>; see DESIGN.md (§13 status, §13.2b source-level translators, §5 trusted base, §14 seeded changes: 57 confirmed changes, each reported by its own property's quick check with a concrete failing input). Evidence level is `proof`; the correspondence counts and the translators' summaries are reported next to obligations/discharged. A run against a scratch tree (VERIF_REPO=<dir>) never writes evidence/.",
 }
 json.dump(m, open(os.path.join(VERIF, "MANIFEST.json"), "w"), indent=1)
 print("claimed:", [c["property_id"] for c in checks])
